@@ -37,6 +37,7 @@ Import-free (compiled into the driver).
 import CnfgenModel.Heap.Trans
 import CnfgenModel.Fam.Tseitin
 import CnfgenModel.Fam.Php
+import CnfgenModel.Core.Iter
 namespace Cnfgen
 namespace Heap
 local notation "Addr" => Nat
@@ -211,10 +212,42 @@ def bgroupEdges (s : Store) (a : Addr) : Option (List (Nat × Nat)) :=
     | _ => none
   | _ => none
 
-/-- the last group object of formula … made from a graph: the most recent `bgroup` cell (the family calls of the model
-allocate at most one per call, after the formula) -/
-def lastBGroup (s : Store) (after : Addr) : Option Addr :=
-  ((List.range s.size).reverse.find? (fun a => after < a && (match s[a]? with | some (.bgroup _ _) => true | _ => false)))
+/-- the group object made by the family call that returned the formula at `f`: the first `bgroup` cell allocated after
+the formula object (a family call that keeps a reference allocates the formula's four cells, then — `keepRef` — the group
+object; no other operation of the model allocates a `bgroup` cell) -/
+def lastBGroup (s : Store) (f : Addr) : Option Addr :=
+  match s[f + 1]? with
+  | some (.bgroup _ _) => some (f + 1)
+  | _ => none
+
+/-- `list(F.all_variable_labels())` when the only group of `F` is a bipartite group whose live object refers to a graph
+that is now `Bnow` (it was `Gold` when the group was made): `len(vg)` was fixed at creation, `vg.label()` enumerates the
+graph as it is now (variables.py: `indices()` returns `self.G.edges()`) -/
+def liveNames1 (numvar st : Nat) (Gold Bnow : BipG) (fmt : String) (un : Bool) (dfmt : String := "x{}") :
+    Except Err (List (Option String)) :=
+  if Gold.numberOfEdges = 0 then Vars.allLabels ⟨numvar, [], []⟩ dfmt
+  else do
+    let gap ← Vars.defaultNames dfmt 1 st
+    let ls ← (Vars.Group.bip st Bnow fmt un).allLabels
+    let varid := max 1 st + Gold.numberOfEdges
+    let tail ← Vars.defaultNames dfmt varid (numvar + 1)
+    if max varid (numvar + 1) ≠ numvar + 1 then throw Err.assertion
+    pure (gap ++ ls ++ tail)
+
+/-- `list(F.all_variable_labels())` of the formula at `f` in the CURRENT store.  A formula returned by a family call that
+kept a reference (`keepRef` right after `CNF()`: the group object is the cell after the formula object) and that still has
+this one group answers through the live group object, i.e. from the caller's graph as it is now; every other formula has
+its groups by value (`Snap.names`). -/
+def liveNames (s : Store) (f : Addr) : Option (Except Err (List (Option String))) :=
+  match snap s f with
+  | none => none
+  | some S =>
+    match s[f + 1]?, S.groups with
+    | some (.bgroup g _), [.bip st Gold fmt un] =>
+      match s[g]? with
+      | some (.bipg Bnow) => some (liveNames1 S.numvar st Gold Bnow fmt un)
+      | _ => some S.names
+    | _, _ => some S.names
 
 /-! ### concrete families (executed by the correspondence suite) -/
 
@@ -239,17 +272,29 @@ def gphpProg (functional onto : Bool) : FamProg :=
   .readG 0 fun v =>
     match v with
     | .bip B =>
-      .act (.newGroup (.sparseMapping B (some "p_{{{},{}}}")))
-        (.keepRef 0 fun _ => clausesProg (Fam.gphp B functional onto).toCNF.clauses .ret)
+      -- the group object is allocated right after the formula object (address `F + 1`, see `liveNames`)
+      .keepRef 0 fun _ =>
+        .act (.newGroup (.sparseMapping B (some "p_{{{},{}}}")))
+          (clausesProg (Fam.gphp B functional onto).toCNF.clauses .ret)
     | _ => .raise modelErr
 
-/-- `RandomKCNF(k, n, m, planted_assignments=P)` once the draws are fixed: `cands` = the clauses proposed by
-`sample_clauses` in order; each is kept iff every planted assignment satisfies it (`clause_satisfied`: `lit in assignment`),
-until `m` clauses are there.  args = [P] -/
-def plantedProg (n : Nat) (m : Nat) (cands : List (List Int)) : FamProg :=
+/-- `all_clauses(k, n, [])`: `combinations(range(1, n+1), k)` x `product([-1, 1], repeat=k)` -/
+def allClauses (k n : Nat) : List (List Int) :=
+  (combos (rangeI 1 (n + 1)) k).flatMap (fun dom => (productRep [(-1 : Int), 1] k).map (fun pol => List.zipWith (· * ·) pol dom))
+
+/-- `RandomKCNF(k, n, m, planted_assignments=P)` (k ≤ n) once the draws are fixed.  `cands` = the clauses the sparse sampler
+of `sample_clauses` asks `clause_satisfied` about, in order (a proposal equal to an accepted clause is skipped before); each
+is kept iff every planted assignment satisfies it (`lit in assignment`); the loop stops with `m` clauses.  Otherwise the dense
+sampler: all clauses satisfied by the planted assignments; fewer than `m` ⇒ ValueError, else `random.sample` of them =
+`dense` (given).  args = [P] -/
+def plantedProg (k n m : Nat) (cands dense : List (List Int)) : FamProg :=
   .readLL 0 fun P =>
     let okc (c : List Int) : Bool := P.all (fun asg => c.any (fun l => asg.contains l))
-    .act (.updVar n) (clausesProg ((cands.filter okc).take m) .ret)
+    let sparse := (cands.filter okc).take m
+    .act (.updVar n)
+      (if sparse.length = m then clausesProg sparse .ret
+       else if ((allClauses k n).filter okc).length < m then .raise .valueError
+       else clausesProg dense .ret)
 
 end Heap
 end Cnfgen
